@@ -1,3 +1,8 @@
 pub mod c01_c02;
 pub mod c09;
 pub mod c10;
+pub mod c04;
+pub mod c05;
+pub mod c06;
+pub mod c18;
+pub mod c19;
